@@ -34,7 +34,7 @@ ASSUMPTIONS = [
     "prev_hedge columns vs previous output: bitwise",
     "'empty' feature excluded; CPU only",
 ]
-PROBES = ["feature_schedule", "hedger_schedule", "recurrent_log", "recurrent_after_fault", "H2", "listed_hedge",
+PROBES = ["contract_changed_on_same_paths", "feature_schedule", "hedger_schedule", "recurrent_log", "recurrent_after_fault", "H2", "listed_hedge",
           "other_use_between", "prev_hedge_not_last", "loss_compared", "ww_model", "bound_feature_reused", "steps_out_of_order", "recurrent_under_grad"]
 
 
@@ -69,6 +69,10 @@ def generate(rng):
     m1, h1 = gen_hedger(rng, "h1", "m1", d, pkind, H=H, listed=bool(d.get("listed")), kinds=kinds, state=True, crit="c0")
     world = {"primaries": [prim], "derivatives": derivs, "models": [m0, m1], "criteria": crits, "hedgers": [h0, h1]}
     n0 = rng.npaths([1, 2, 3, 5, 8])
+    # a Black-Scholes module copies the contract's strike when it is built, so hedgers holding one are not re-struck here
+    # (their stepwise twin is built later than they are)
+    has_bs = any(m["kind"] in ("bs", "ww") for m in (m0, m1)) or any(
+        isinstance(i, dict) and i.get("module", {}).get("kind") in ("bs", "ww") for h in (h0, h1) for i in h["inputs"])
     ops = [{"op": "simulate", "target": "d0", "n_paths": n0, "torch_seed": rng.seed31()}]
     fault_rate = rng.choice([0.0, 0.3, 0.6])
     for _ in range(rng.randint(2, 8)):
@@ -92,6 +96,11 @@ def generate(rng):
             if rng.chance(0.5):
                 # the same bound feature object again, after a re-simulation of the same shape
                 ops.append({"op": "simulate", "target": "d0", "n_paths": n0, "torch_seed": rng.seed31()})
+                ops.append({"op": "feature_sched", "feature": f, "derivative": "d0", "order_seed": rng.seed31()})
+            if rng.chance(0.35) and "strike" in d["params"] and not has_bs:
+                # ... and after the contract was re-struck / flipped on the same paths (a strike sweep over fixed paths)
+                ops.append({"op": "set_attr", "derivative": "d0", "strike": rng.choice([0.8, 0.9, 1.0, 1.05, 1.1, 1.25]),
+                            "flip_call": False})
                 ops.append({"op": "feature_sched", "feature": f, "derivative": "d0", "order_seed": rng.seed31()})
         elif k == "hedger_sched":
             ops.append({"op": "hedger_sched", "hedger": "h0", "derivative": "d0", "hedge": hedge})
@@ -242,6 +251,13 @@ def _execute(program, stats, hist):
                      buffers={n: thash(b) for p in world.primaries.values() for n, b in p.named_buffers()})
             continue
         d = world.derivatives[op["derivative"]]
+        if name == "set_attr":
+            d.strike = op["strike"]
+            if op.get("flip_call") and hasattr(d, "call"):
+                d.call = not d.call
+            stats.probe("contract_changed_on_same_paths")
+            hist.add(op=name, strike=op["strike"])
+            continue
         try:
             spot = next(iter(d.underliers())).spot
             N, T = spot.shape
